@@ -45,6 +45,37 @@ func (o *Outcome) FirstErr() error {
 	return &SigError{Sig: f.sig, Err: fmt.Errorf("[%s] %s", f.prop, f.msg)}
 }
 
+// errFor is FirstErr restricted to the property a replay is run for (when the test decides several
+// properties): a failure that is not a known finding wins over a known one, sibling properties' failures
+// are left out.
+func (o *Outcome) errFor(target string, props []string) error {
+	inProps := false
+	for _, p := range props {
+		inProps = inProps || p == target
+	}
+	if !inProps {
+		return o.FirstErr()
+	}
+	var known *fail
+	for i := range o.fails {
+		f := &o.fails[i]
+		if f.prop != target {
+			continue
+		}
+		if IsKnown(f.prop, f.sig) {
+			if known == nil {
+				known = f
+			}
+			continue
+		}
+		return &SigError{Sig: f.sig, Err: fmt.Errorf("[%s] %s", f.prop, f.msg)}
+	}
+	if known != nil {
+		return &SigError{Sig: known.sig, Err: fmt.Errorf("[%s] %s", known.prop, known.msg)}
+	}
+	return nil
+}
+
 // Class adds a class label for every property of the Prop ("" key).
 func (o *Outcome) Class(label string) { o.classes[""] = append(o.classes[""], label) }
 
@@ -83,7 +114,7 @@ func NewProp[C any](props []string, test string, gen func(*rapid.T) C, run func(
 			b, _ := json.MarshalIndent(o.History, "", " ")
 			fmt.Fprintf(os.Stderr, "HISTORY %s\n", b)
 		}
-		return o.FirstErr()
+		return o.errFor(os.Getenv("VERIF_PROP"), p.Props)
 	})
 	return p
 }
